@@ -51,7 +51,7 @@ SUPERSEDED = {
     ("C13", "R3"): ("R8",), ("C13", "R4"): ("R8",), ("C13", "R5"): ("R8",), ("C13", "R6"): ("R8",),
     ("C14", "R1"): ("R6",), ("C14", "R3"): ("R6",), ("C14", "R4"): ("R6",),
     ("C15", "R1"): ("R6",), ("C15", "R2"): ("R6",), ("C15", "R3"): ("R6",), ("C15", "R4"): ("R6",), ("C15", "R5"): ("R6",),
-    ("C16", "R2"): ("R5",), ("C16", "R1"): ("R5",),
+    ("C16", "R2"): ("R5",), ("C16", "R1"): ("R5",), ("C01", "R7"): ("R14",),
     ("C02", "R7"): ("R7",), ("C04", "R8"): ("R8",), ("C06", "R7"): ("R7",),
 }
 
